@@ -158,7 +158,7 @@ class C11Oracle(Oracle):
 
     def judge_label(self, newest, label, extra):
         if extra <= 0:
-            if newest != label and not (not newest and not label):
+            if newest != label:
                 return f"newest label is {newest!r}, the operation's label is {label!r} (no volume was split)"
             return None
         if not isinstance(newest, str):
